@@ -122,6 +122,40 @@ def pat_lit(taxa, paps):
 
 
 # ----------------------------------------------------------------------------
+# optional keywords are left out now and then; the model then runs with the DOCUMENTED defaults
+# (docstrings of get_gls / PhyBo._get_GLS / PhyBo._get_GLS_top_down / PhyBo.get_GLS), written down here
+# and never read from the function signatures
+
+DOC_DEFAULTS = {
+    "get_gls": {"gpl": 1, "g": 1, "l": 1, "push": True, "md": 0},
+    "glsr": {"gpl": 1, "push": True, "md": 0},
+    "topdown": {"mode": 1, "md": 0},
+}
+# which keyword of the call a case field feeds
+KEYWORD = {"gpl": "gpl", "g": "weights", "l": "weights", "push": "push_gains", "md": "missing_data",
+           "mode": "mode"}
+
+
+def choose_omit(rng, case, p=0.3):
+    """With probability p leave out a random non-empty subset of the optional keywords; the case fields that
+    feed an omitted keyword are set to the documented default."""
+    if rng.random() >= p:
+        return case
+    dflt = DOC_DEFAULTS[case["kind"]]
+    kws = sorted({KEYWORD[f] for f in dflt})
+    omit = [k for k in kws if rng.random() < 0.5] or [rng.choice(kws)]
+    for f, v in dflt.items():
+        if KEYWORD[f] in omit:
+            case[f] = v
+    case["omit"] = omit
+    return case
+
+
+def keywords(case, **kw):
+    return {k: v for k, v in kw.items() if k not in case.get("omit", ())}
+
+
+# ----------------------------------------------------------------------------
 # get_gls (stand-alone)
 
 def gen_pattern(rng, n, pmiss):
@@ -159,11 +193,13 @@ def gen_gls_case(rng, nmin=3, nmax=9):
     g, l = rng.choice(WEIGHTS)
     gpl = rng.choice([0, 1, 1, 2, 3, n, n, n + 3])
     md = rng.choice([0, -1])
-    return {"kind": "get_gls", "tree": t, "taxa": taxa, "paps": paps, "gpl": gpl, "g": g, "l": l,
-            "push": rng.random() < 0.5, "md": md,
-            # the same pattern object is handed to get_gls a second time
-            "md2": (-1 - md) if rng.random() < 0.7 else md,
-            "arr": rng.choice(["list", "list", "numpy", "numpy", "tuple"])}
+    c = {"kind": "get_gls", "tree": t, "taxa": taxa, "paps": paps, "gpl": gpl, "g": g, "l": l,
+         "push": rng.random() < 0.5, "md": md,
+         "arr": rng.choice(["list", "list", "numpy", "numpy", "tuple"])}
+    choose_omit(rng, c)
+    # the same pattern object is handed to get_gls a second time (missing_data always explicit there)
+    c["md2"] = (-1 - c["md"]) if rng.random() < 0.7 else c["md"]
+    return c
 
 
 def exhaustive_gls_cases(nleaves, configs, pattern_values=(1, 0, -1)):
@@ -177,8 +213,15 @@ def exhaustive_gls_cases(nleaves, configs, pattern_values=(1, 0, -1)):
             for (g, l, gpl, push, md) in configs:
                 if md == 0 and -1 in paps and (gpl, push) != (configs[0][2], configs[0][3]):
                     continue         # with md = 0 a missing leaf is an absent leaf: keep one config only
-                yield {"kind": "get_gls", "tree": t, "taxa": list(tips), "paps": list(paps), "gpl": gpl,
-                       "g": g, "l": l, "push": push, "md": md}
+                c = {"kind": "get_gls", "tree": t, "taxa": list(tips), "paps": list(paps), "gpl": gpl,
+                     "g": g, "l": l, "push": push, "md": md}
+                # documented defaults are passed by leaving the keyword out
+                omit = [kw for kw, is_default in (("missing_data", md == 0), ("gpl", gpl == 1),
+                                                  ("push_gains", push is True), ("weights", (g, l) == (1, 1)))
+                        if is_default and (kw == "missing_data" or len(paps) % 2)]
+                if omit:
+                    c["omit"] = omit
+                yield c
 
 
 def config_grid(weights, gpls, pushes=(True, False), mds=(0, -1)):
@@ -211,8 +254,11 @@ def run_get_gls(case):
         if k == 1 and md2 == case["md"] and kind == "list":
             outs.append(outs[0])                 # nothing new to observe: skip the second call
             break
-        out = get_gls(paps, taxa, tree, gpl=case["gpl"], weights=(case["g"], case["l"]),
-                      push_gains=case["push"], missing_data=md)
+        kw = keywords(case, gpl=case["gpl"], weights=(case["g"], case["l"]), push_gains=case["push"],
+                      missing_data=md)
+        if k == 1:
+            kw["missing_data"] = md
+        out = get_gls(paps, taxa, tree, **kw)
         if [int(x) for x in paps] != orig:
             raise ArgumentMutated("get_gls modified the caller's pattern (%s): %r -> %r (call %d, missing_data=%d)"
                                   % (kind, orig, [int(x) for x in paps], k + 1, md))
@@ -269,6 +315,10 @@ def gen_glsr_case(rng, nmin=3, nmax=8):
     else:
         c["rmode"] = "r"
         c["r"] = rng.choice([1, 2, 3, 3, 4, 5, 6, -1, -2, -3, -4, len(taxa)])
+    choose_omit(rng, c)
+    if rng.random() < 0.1:               # mode and r left out as well: documented 'w' and (1, 1)
+        c["rmode"], c["r"] = "w", [1, 1]
+        c["omit"] = sorted(set(c.get("omit", [])) | {"mode", "r"})
     return c
 
 
@@ -297,8 +347,9 @@ def run_glsr(case):
     r = tuple(case["r"]) if case["rmode"] == "w" else case["r"]
     res = {"tree": read_back(tree)}
     try:
-        out = PhyBo._get_GLS(stub(tree, taxa), list(case["paps"]), mode=case["rmode"], r=r, gpl=case["gpl"],
-                             push_gains=case["push"], missing_data=case["md"])
+        out = PhyBo._get_GLS(stub(tree, taxa), list(case["paps"]),
+                             **keywords(case, mode=case["rmode"], r=r, gpl=case["gpl"], push_gains=case["push"],
+                                        missing_data=case["md"]))
         res["out"] = [(nid(a), int(b)) for a, b in out]
     except (KeyError, ValueError, IndexError) as e:     # too tight a restriction: documented guard
         res["out"] = None
@@ -317,8 +368,8 @@ def render_glsr(case, res):
 def gen_td_case(rng, nmin=3, nmax=9):
     # the PhyBo glue answers single-presence patterns itself: at least two presences here
     t, taxa, paps = gen_tree_pattern(rng, nmin, nmax, min_pres=2)
-    return {"kind": "topdown", "tree": t, "taxa": taxa, "paps": paps,
-            "mode": rng.choice([1, 2, 2, 3, 3, 4, 5]), "md": rng.choice([0, -1])}
+    return choose_omit(rng, {"kind": "topdown", "tree": t, "taxa": taxa, "paps": paps,
+                             "mode": rng.choice([1, 2, 2, 3, 3, 4, 5]), "md": rng.choice([0, -1])}, p=0.2)
 
 
 def exhaustive_td_cases(nleaves, modes=(1, 2, 3, 4), mds=(0, -1)):
@@ -340,8 +391,8 @@ def run_td(case):
     from lingpy.compare.phylogeny import PhyBo
     tree = load(case["tree"])              # a fresh tree object: lowestCommonAncestor leaves marks behind
     taxa = ["n%d" % i for i in case["taxa"]]
-    out = PhyBo._get_GLS_top_down(stub(tree, taxa), list(case["paps"]), mode=case["mode"],
-                                  missing_data=case["md"])
+    out = PhyBo._get_GLS_top_down(stub(tree, taxa), list(case["paps"]),
+                                  **keywords(case, mode=case["mode"], missing_data=case["md"]))
     return {"tree": read_back(tree), "out": [(nid(a), int(b)) for a, b in out]}
 
 
@@ -383,13 +434,57 @@ def gen_phybo_case(rng):
             rows.append((wid, x, 0, rows[0][3]))
             wid += 1
     g, l = rng.choice(WEIGHTS)
-    return {"kind": "phybo", "tree": t, "rows": rows,
-            "weighted": {"g": g, "l": l, "gpl": rng.choice([1, 2, n]), "push": rng.random() < 0.5,
-                         "md": rng.choice([0, -1])},
-            "restriction": {"r": rng.choice([2, 3, 4, 5]), "gpl": rng.choice([1, 2, 3]),
-                            "push": rng.random() < 0.5, "md": rng.choice([0, -1])},
-            "topdown": {"r": rng.choice([1, 2, 3, 4]), "md": rng.choice([0, -1])},
-            "singletons": rng.random() < 0.5}
+    c = {"kind": "phybo", "tree": t, "rows": rows,
+         "weighted": call_omit(rng, "weighted", {"g": g, "l": l, "gpl": rng.choice([1, 2, n, n + 2]),
+                                                 "push": rng.random() < 0.5, "md": rng.choice([0, -1])}),
+         "restriction": call_omit(rng, "restriction", {"r": rng.choice([2, 3, 4, 5]), "gpl": rng.choice([1, 2, 3]),
+                                                       "push": rng.random() < 0.5, "md": rng.choice([0, -1])}),
+         "topdown": call_omit(rng, "topdown", {"r": rng.choice([1, 2, 3, 4]), "md": rng.choice([0, -1])}),
+         "singletons": rng.random() < 0.5,
+         # the reference tree is handed over as a file or as a Newick string
+         "tree_file": rng.random() < 0.5}
+    if rng.random() < 0.4:
+        # the wordlist file carries a tree of its own (@tree line) with another topology and other
+        # internal node names: the explicitly given tree is the reference tree of the analysis
+        c["embedded"] = tree_over(rng, langs, 100)
+    return c
+
+
+GET_GLS_DEFAULTS = {"g": 1, "l": 1, "r": 3, "gpl": 1, "push": True, "md": 0}     # documented in PhyBo.get_GLS
+CALL_KEYWORD = {"g": "ratio", "l": "ratio", "r": "restriction", "gpl": "gpl", "push": "push_gains",
+                "md": "missing_data"}
+
+
+def call_omit(rng, mode, cfg, p=0.3):
+    """Leave out optional keywords of PhyBo.get_GLS now and then (also `mode` for the weighted mode, whose
+    documented default it is); the configuration then holds the documented defaults."""
+    if rng.random() >= p:
+        return cfg
+    kws = sorted({CALL_KEYWORD[f] for f in cfg})
+    omit = [k for k in kws if rng.random() < 0.5] or [rng.choice(kws)]
+    for f in cfg:
+        if CALL_KEYWORD[f] in omit:
+            cfg[f] = GET_GLS_DEFAULTS[f]
+    if mode == "weighted" and rng.random() < 0.5:
+        omit.append("mode")
+    cfg["omit"] = omit
+    return cfg
+
+
+def tree_over(rng, langs, first_internal):
+    """A random tree whose leaves are exactly `langs`; internal nodes numbered from first_internal."""
+    shape = random_shape(rng, len(langs), rng.choice([0.0, 0.3, 0.6]))
+    order = list(langs)
+    rng.shuffle(order)
+    it_leaf, counter = iter(order), [first_internal]
+
+    def go(sh):
+        if not sh:
+            return (next(it_leaf), [])
+        me = counter[0]
+        counter[0] += 1
+        return (me, [go(c) for c in sh])
+    return go(shape)
 
 
 def derive_patterns(rows, taxa):
@@ -432,22 +527,36 @@ def run_phybo(case):
     try:
         path = os.path.join(d, "d.qlc")
         with open(path, "w") as f:
+            if case.get("embedded"):
+                f.write("@tree:" + phybo_newick(case["embedded"]) + "\n")
             f.write("ID\tDOCULECT\tCONCEPT\tIPA\tCOGID\n")
             for wid, lang, con, cog in case["rows"]:
                 f.write("%d\tn%d\tc%d\tw\t%d\n" % (wid, lang, con, cog))
         items = []
         logging.disable(logging.CRITICAL)
         with contextlib.redirect_stderr(io.StringIO()):
-            phy = PhyBo(path, tree=phybo_newick(t), output_dir=os.path.join(d, "out"),
+            tree_arg = phybo_newick(t)
+            if case.get("tree_file"):
+                tree_arg = os.path.join(d, "reference.tre")
+                with open(tree_arg, "w") as f:
+                    f.write(phybo_newick(t))
+            phy = PhyBo(path, tree=tree_arg, output_dir=os.path.join(d, "out"),
                         singletons=case["singletons"])
 
             def name_id(x):
-                return root if x == "root" else nid(x)
+                # the root of whichever tree is called 'root'; a name that is no node of the reference tree
+                # keeps a number that no node has (the replay checker then rejects the event)
+                if x == "root":
+                    return root
+                return nid(x)
 
             def rb(node):
                 return (name_id(node.Name), [rb(c) for c in node.Children])
 
-            tree_read = rb(phy.tree)
+            # the REFERENCE tree: the one the caller passed, read through cogent from the same Newick text,
+            # never the tree the object says it uses
+            from lingpy.thirdparty import cogent as cg
+            tree_read = rb(cg.LoadTree(treestring=phybo_newick(t)))
             taxa = [name_id(x) for x in phy.taxa]
             derived = derive_patterns(case["rows"], taxa)
             observed, coded_ok = {}, {}
@@ -462,20 +571,25 @@ def run_phybo(case):
                 exact = mode != "topdown" and not seen_topdown
                 seen_topdown = seen_topdown or mode == "topdown"
                 before = {cog: list(phy.paps[cog]) for cog in phy.cogs}
+                omit = cfg.get("omit", ())
                 if mode == "weighted":
-                    phy.get_GLS(mode="weighted", ratio=(cfg["g"], cfg["l"]), gpl=cfg["gpl"], push_gains=cfg["push"],
-                                missing_data=cfg["md"], force=True)
+                    kw = {"mode": "weighted", "ratio": (cfg["g"], cfg["l"]), "gpl": cfg["gpl"],
+                          "push_gains": cfg["push"], "missing_data": cfg["md"]}
                     glm = "w-%d-%d" % (cfg["g"], cfg["l"])
                 elif mode == "restriction":
-                    try:
-                        phy.get_GLS(mode="restriction", restriction=cfg["r"], gpl=cfg["gpl"],
-                                    push_gains=cfg["push"], missing_data=cfg["md"], force=True)
-                    except (KeyError, ValueError, IndexError):
-                        continue          # restriction too tight for some pattern: documented guard
+                    kw = {"mode": "restriction", "restriction": cfg["r"], "gpl": cfg["gpl"],
+                          "push_gains": cfg["push"], "missing_data": cfg["md"]}
                     glm = "r-%d" % cfg["r"]
                 else:
-                    phy.get_GLS(mode="topdown", restriction=cfg["r"], missing_data=cfg["md"], force=True)
+                    kw = {"mode": "topdown", "restriction": cfg["r"], "missing_data": cfg["md"]}
                     glm = "t-%d" % cfg["r"]
+                kw = {k: v for k, v in kw.items() if k not in omit}
+                try:
+                    phy.get_GLS(force=True, **kw)
+                except (KeyError, ValueError, IndexError):
+                    if mode == "restriction":
+                        continue          # restriction too tight for some pattern: documented guard
+                    raise
                 for cog in phy.cogs:
                     gls, noo = phy.gls[glm][cog]
                     if noo != sum(e for _, e in gls):
@@ -499,20 +613,53 @@ def gen_phybo_history_case(rng):
     for _ in range(rng.randint(3, 5)):
         mode = rng.choice(["weighted", "weighted", "restriction", "topdown"])
         cfg = dict(c[mode])
+        cfg.pop("omit", None)
         cfg["md"] = rng.choice([0, -1])
         if "gpl" in cfg:
             cfg["gpl"] = rng.choice([1, 2, 3])
             cfg["push"] = rng.random() < 0.5
+        keep = {f: cfg[f] for f in ("g", "l", "r") if f in cfg}      # the model name must stay the same
+        call_omit(rng, mode, cfg)
+        if any(cfg[f] != v for f, v in keep.items()):
+            cfg.update(keep)
+            cfg["omit"] = [k for k in cfg["omit"] if k not in ("ratio", "restriction")]
         calls.append((mode, cfg))
     # make sure some model name is used with both conventions, missing data treated as such first
     mode = rng.choice(["weighted", "topdown", "restriction"])
     a, b = dict(c[mode]), dict(c[mode])
+    for x in (a, b):
+        x["omit"] = [k for k in x.get("omit", []) if k != "missing_data"]
     a["md"], b["md"] = -1, 0
     pos = rng.randrange(len(calls) + 1)
     calls[pos:pos] = [(mode, a), (mode, b)]
     # top-down calls last: lowestCommonAncestor on subtrees leaves marks on the shared tree object, after
     # which the next whole-tree call may stop too high (still a correct scenario, but not the model's)
     calls.sort(key=lambda mc: mc[0] == "topdown")
+    c["calls"] = calls
+    return c
+
+
+def gen_phybo_weighted_history_case(rng):
+    """C08 through the wordlist-driven entry point: one PhyBo object, 3-5 calls of the weighted mode with the
+    SAME ratio (hence the same model name) and changing missing_data / gpl / push_gains, force=True.  Every
+    stored scenario is compared with the minimum for the pattern derived from the rows."""
+    c = gen_phybo_case(rng)
+    n = len(leaves(c["tree"]))
+    g, l = rng.choice(WEIGHTS + [(1, 1), (1, 1)])
+    md = rng.choice([0, -1])
+    calls = []
+    for k in range(rng.randint(3, 5)):
+        cfg = {"g": g, "l": l, "gpl": rng.choice([1, 2, n, n, n + 2]), "push": rng.random() < 0.5, "md": md}
+        md = -1 - md if rng.random() < 0.8 else md
+        if rng.random() < 0.3:
+            omit = [kw for kw in ("gpl", "push_gains", "missing_data", "mode") if rng.random() < 0.4]
+            if (g, l) == (1, 1) and rng.random() < 0.5:
+                omit.append("ratio")
+            for f in ("gpl", "push", "md"):
+                if CALL_KEYWORD[f] in omit:
+                    cfg[f] = GET_GLS_DEFAULTS[f]
+            cfg["omit"] = omit
+        calls.append(("weighted", cfg))
     c["calls"] = calls
     return c
 
@@ -570,6 +717,9 @@ def jsonable(case, res=None):
     c = dict(case)
     c["tree"] = to_json_tree(case["tree"])
     c["newick"] = newick(case["tree"])
+    if case.get("embedded"):
+        c["embedded"] = to_json_tree(case["embedded"])
+        c["embedded_newick"] = newick(case["embedded"])
     if res is not None:
         r = dict(res)
         if "tree" in r:
@@ -591,6 +741,9 @@ def from_json(c):
     case["tree"] = from_json_tree(c["tree"])
     case.pop("impl", None)
     case.pop("newick", None)
+    case.pop("embedded_newick", None)
+    if case.get("embedded"):
+        case["embedded"] = from_json_tree(case["embedded"])
     if case.get("calls"):
         case["calls"] = [(m, cfg) for m, cfg in case["calls"]]
     if case.get("rows"):
@@ -628,6 +781,15 @@ def shrink(case):
 def _shrink(case):
     if case["kind"] == "phybo":
         cogs = sorted({r[3] for r in case["rows"]})
+        if case.get("calls") and len(case["calls"]) > 1:
+            for k in range(len(case["calls"])):
+                c = dict(case)
+                c["calls"] = case["calls"][:k] + case["calls"][k + 1:]
+                yield c
+        if case.get("embedded") and not case.get("keep_embedded"):
+            c = dict(case)
+            c.pop("embedded")
+            yield c
         langs = {r[1] for r in case["rows"]}
         for cg_ in cogs:                        # drop one cognate set, keeping every language of the tree
             rows = [r for r in case["rows"] if r[3] != cg_]
